@@ -131,6 +131,20 @@ CHECKS = {
         "note": "Trusted: CPython ast; numpy copy semantics (np.array/copy=True/.copy()/np.copy allocate; indexing, asarray, reshape share). Assumes "
         "loops unrolled 0/1 and only explicit raises; from_fields/extract_time_range sharing is by design and outside the statement.",
     },
+    "C06": {
+        "level": "proof",
+        "technique": "static: abstract interpretation of the stepping closures with an uninterpreted right-hand side -> Butcher tableau in exact rationals; rooted-tree order conditions; symbolic fixed point of implicit iterations; sibling comparison of python/numba loop summaries; loop-invariant check rate == rhs(state, t)",
+        "text": "For Euler, RK4, the step-doubling estimator and RKF45 the tableau (A, b, c) is read off the source and proved to satisfy "
+        "c_i = sum_j a_ij (every right-hand side evaluated at the time of its stage state), all rooted-tree order conditions up to the "
+        "scheme's order (RKF45: 8 conditions for the propagated order-4 weights, 17 for the embedded b + r) and the stability function "
+        "on du/dt = a u; implicit Euler and Crank-Nicolson (any explicit_fraction) via the fixed point of the extracted iteration map "
+        "(1/(1-z), (1+z/2)/(1-z/2)); Adams-Bashforth recursion, start-up value and evaluation times; python and numba versions of "
+        "Adams-Bashforth and of both adaptive loops are equal as extracted summaries (step clamp max(min(dt_opt, t_end-t), dt_min), "
+        "acceptance, time advance, step accounting, dt-adjustment inputs), and adaptive Euler keeps rate == rhs(state, t).",
+        "note": "Trusted: CPython ast, sympy, numba compiling Python semantics; post-step hooks assumed identity. Not decided: convergence of "
+        "fixed-point iterations, the global error bound of adaptive stepping, scipy's integrator, round-off equality between backends; the "
+        "fixed-step loop skeleton is decided by C07.",
+    },
 }
 
 NOT_APPLICABLE: dict[str, str] = {}
